@@ -309,7 +309,16 @@ type c13Replay struct {
 }
 
 // c13RunRW returns a layout description (for distinct accounting) or "" when the case was skipped.
-func c13RunRW(r *vx.Run, l c13Log) string {
+func c13RunRW(r *vx.Run, l c13Log) (desc string) {
+	pn, stack := vx.Guard(func() { desc = c13RunRWInner(r, l) })
+	if pn != nil {
+		r.Violation("rw-panic", fmt.Sprintf("log %s: writing/reading panicked: %v\n%s", vx.J(l), pn, stack), c13Replay{Part: "rw", Log: &l})
+		return "panic"
+	}
+	return desc
+}
+
+func c13RunRWInner(r *vx.Run, l c13Log) string {
 	recs := l.records()
 	if recs == nil {
 		return ""
@@ -330,12 +339,19 @@ func c13RunRW(r *vx.Run, l c13Log) string {
 		viol("log-write-error", err.Error())
 		return "error"
 	}
+	closed := false
+	defer func() {
+		if !closed {
+			w.Close() // only reached when reading panicked
+		}
+	}()
 	got, rerr := c13ReadAll(dir)
 	if rerr != nil {
 		viol("reader-error-open-log", fmt.Sprintf("reading the still-open log: %v (after %d of %d records)", rerr, len(got), len(recs)))
 	} else if ok, why := c13SameSeq(recs, got); !ok {
 		viol("reader-sequence-mismatch-open-log", "reading the still-open log: "+why)
 	}
+	closed = true
 	if err := w.Close(); err != nil {
 		viol("log-close-error", err.Error())
 		return "error"
@@ -396,7 +412,15 @@ type c13LiveResult struct {
 }
 
 // c13LiveRun feeds one growth schedule to a fresh LiveReader and checks it against want.
-func c13LiveRun(data []byte, cuts []int, maxRead int, want [][]byte) c13LiveResult {
+func c13LiveRun(data []byte, cuts []int, maxRead int, want [][]byte) (res c13LiveResult) {
+	pn, stack := vx.Guard(func() { res = c13LiveRunInner(data, cuts, maxRead, want) })
+	if pn != nil {
+		res = c13LiveResult{sig: "live-panic", msg: fmt.Sprintf("LiveReader panicked: %v\n%s", pn, stack)}
+	}
+	return res
+}
+
+func c13LiveRunInner(data []byte, cuts []int, maxRead int, want [][]byte) c13LiveResult {
 	win := &c13Window{data: data, maxRead: maxRead}
 	lr := NewLiveReader(promslog.NewNopLogger(), c13LRMetrics, win)
 	var res c13LiveResult
